@@ -209,6 +209,26 @@ def _gen_for(stream, seed):
             b["occ"] = min(b["occ"], sc["T"] - b["dur"] - 1)
             for c_ in evs[2:]:
                 c_["occ"], c_["dur"] = 1, sc["T"] - 3          # happening from start to end
+            if a["type"] == "recovery" and b["type"] == "recovery" and random.Random(seed ^ 0xB16).random() < 0.5:
+                # A destroys half of an industry's capital and is completely recovered when B destroys 90 % of the same
+                # industry's capital: together they would exceed the stock, one after the other they do not
+                try:
+                    Kh = np.asarray(scen.build_model(sc["table"], sc["model"]).productive_capital, dtype=float).ravel()
+                    regs_h, secs_h, _ch = scen.labels(sc["table"])
+                    key_h = next(iter(a["impact"]))
+                    ih = regs_h.index(key_h.split("|")[0]) * len(secs_h) + secs_h.index(key_h.split("|")[1])
+                    if Kh[ih] > 0:
+                        mf_h = sc["model"]["monetary_factor"]
+                        a["impact"] = {key_h: 0.5 * Kh[ih] * mf_h / a["emf"]}
+                        b["impact"] = {key_h: 0.9 * Kh[ih] * mf_h / b["emf"]}
+                        a["house"] = b["house"] = None
+                        a.pop("int_dtype", None)
+                        b.pop("int_dtype", None)
+                        b["occ"] = done + 1
+                        if len(evs) > 2:
+                            del evs[2:]
+                except Exception:
+                    pass
         sc["stream"] = "handover"
         return sc
     if stream == "finishing":
